@@ -151,6 +151,12 @@ class _NoStopIteration:
         self.fn = fn
 
     def __call__(self, x):
+        # the library draws from the global random source (random proof trees, samplers): every job is made a function of
+        # its own input, whichever worker runs it
+        import random
+        import zlib
+
+        random.seed(zlib.crc32(repr(x).encode()))
         try:
             return self.fn(x)
         except StopIteration as e:
